@@ -64,6 +64,9 @@ def _race(cmds, timeout, mem_gb, res):
                 fo.seek(0)
                 out = fo.read()
                 if '"result"' in out or "too many addressed objects" in out:
+                    if "--cvc5" in cmd and (out.count('"status": "SUCCESS"') == 0 or '"status": "ERROR"' in out or
+                                            '"status": "UNKNOWN"' in out or out.count('"status": "FAILURE"') > out.count("XC_CANARY")):
+                        continue    # an SMT answer is taken only when it is a clean proof; otherwise the SAT solvers decide
                     fe.seek(0)
                     winner = (cmd, _P(rc, out, fe.read()))
                     break
@@ -84,7 +87,7 @@ def _race(cmds, timeout, mem_gb, res):
         fo.seek(0); fe.seek(0)
         winner = (cmd, _P(pr.returncode, fo.read(), fe.read()))
     res.cmds.append({"cmd": " ".join(winner[0]), "rc": winner[1].returncode, "s": round(time.time() - t0, 2), "raced_against": len(cmds) - 1})
-    res.backend = "SAT portfolio, answered by " + ("cadical" if "cadical" in winner[0] else "minisat2")
+    res.backend = "portfolio, answered by " + ("cadical (SAT)" if "cadical" in winner[0] else "cvc5 (SMT)" if "--cvc5" in winner[0] else "minisat2 (SAT)")
     return winner[1]
 
 
@@ -118,7 +121,7 @@ class Result:
 
 def prove(workdir, name, c_text, entry, enforce=None, replace=(), loop_contracts=True, solver="sat",
           unwind=None, unwindset=(), timeout=900, mem_gb=24, trace=False, object_bits=None, extra_defs=(),
-          no_checks=False, nondet_static=False):
+          no_checks=False, nondet_static=False, extra_checks=()):
     """Run the pipeline on c_text. Returns Result. Raises Undecided on tool trouble."""
     os.makedirs(workdir, exist_ok=True)
     src = os.path.join(workdir, name + ".c")
@@ -139,7 +142,7 @@ def prove(workdir, name, c_text, entry, enforce=None, replace=(), loop_contracts
     if no_checks:
         b = a
     else:
-        p = _run(["goto-instrument"] + CHECK_FLAGS + [a, b], 300, mem_gb, res.cmds)
+        p = _run(["goto-instrument"] + CHECK_FLAGS + list(extra_checks) + [a, b], 300, mem_gb, res.cmds)
         if p.returncode != 0:
             raise Undecided("goto-instrument(checks) failed:\n%s" % (p.stdout + p.stderr)[-3000:])
     use_dfcc = bool(enforce or replace or loop_contracts)
@@ -166,7 +169,7 @@ def prove(workdir, name, c_text, entry, enforce=None, replace=(), loop_contracts
         cb.append("--z3")
     elif solver == "cadical":
         cb += ["--sat-solver", "cadical"]
-    res.backend = {"portfolio": "SAT portfolio (minisat2 and cadical raced, first answer taken)", "sat": "SAT (minisat2, CBMC built-in)", "cvc5": "SMT2 (cvc5)", "z3": "SMT2 (z3)", "cadical": "SAT (cadical)"}[solver]
+    res.backend = {"portfolio3": "portfolio (minisat2, cadical, cvc5 raced)", "portfolio": "SAT portfolio (minisat2 and cadical raced, first answer taken)", "sat": "SAT (minisat2, CBMC built-in)", "cvc5": "SMT2 (cvc5)", "z3": "SMT2 (z3)", "cadical": "SAT (cadical)"}[solver]
     if unwind is not None:
         cb += ["--unwind", str(unwind), "--unwinding-assertions"]
     for u in unwindset:
@@ -178,8 +181,11 @@ def prove(workdir, name, c_text, entry, enforce=None, replace=(), loop_contracts
     # the default 8 object bits are much faster than 12 (SplitString: 36 s vs > 300 s); widen only on demand
     for ob in ([object_bits] if object_bits else [None, 10, 12, 16]):
         cmdl = cb + (["--object-bits", str(ob)] if ob else []) + [c]
-        if solver == "portfolio":
-            p = _race([cmdl, cmdl[:1] + ["--sat-solver", "cadical"] + cmdl[1:]], timeout, mem_gb, res)
+        if solver in ("portfolio", "portfolio3"):
+            cands = [cmdl, cmdl[:1] + ["--sat-solver", "cadical"] + cmdl[1:]]
+            if solver == "portfolio3":
+                cands.append(cmdl[:1] + ["--cvc5"] + cmdl[1:])
+            p = _race(cands, timeout, mem_gb, res)
         else:
             p = _run(cmdl, timeout, mem_gb, res.cmds)
         if "too many addressed objects" in p.stdout and not object_bits:
